@@ -42,6 +42,7 @@ type Op struct {
 	Msgs  []MsgSpec `json:"msgs,omitempty"`
 	Max   int       `json:"max,omitempty"`
 	H     []int     `json:"h,omitempty"`
+	H2    []int     `json:"h2,omitempty"`
 	Raw   []string  `json:"raw,omitempty"`
 	Secs  int       `json:"secs,omitempty"`
 	At    int64     `json:"at,omitempty"` // ns after Epoch
@@ -74,6 +75,7 @@ const (
 	OpExpireSubs  = "ExpireSubs"
 	OpAdvance     = "Advance"
 	OpSetDelay    = "SetDelay"
+	OpStream      = "Stream" // a StreamingPull session over gRPC: H = ack ids in the initial request, H2 = ack ids in a second request
 	OpGetSub      = "GetSub"
 	OpGetTopic    = "GetTopic"
 )
